@@ -4,15 +4,34 @@
 def setup(register, COMMON_TB):
     register(
         "C07", coq="C07", coq_extra=["k8s"], pkg="./internal/mode/static/", test="TestVerifC07",
+        extra=[dict(pkg="./internal/mode/static/status/", test="TestVerifC07Prep")],
         rule="generated cluster states (as C02) run through the real handler with a successful or failing (file write / reload) apply; the statuses "
              "written by the real setters are read back from the objects and compared inside Coq with the declarative attachment relation: Accepted "
              "per parentRef iff served, ResolvedRefs False iff a processed rule has an invalid backend, exactly one entry per parentRef with the "
-             "object's generation, attachedRoutes per listener, Programmed only when valid and the reload succeeded; non-trivial = at least 2 routes",
+             "object's generation, attachedRoutes per listener, Programmed only when valid and the reload succeeded; non-trivial = at least 2 routes. "
+             "Second part (TestVerifC07Prep, evaluated by C07/PrepCheck.v): the real prepareRouteStatus, prepareGatewayRequest and PrepareGatewayRequests of "
+             "status/prepare_requests.go on graph-level inputs - Route condition lists drawn from the real constructors of state/conditions (0-6 calls, repeated "
+             "types, conditions overriding the defaults, one run in five also conditions no constructor returns), 0-4 parentRefs with Attachment nil / attached / "
+             "failed with a drawn FailedCondition, reload error nil or not; Gateways nil / invalid / valid with 0-4 listeners (all, none or some valid, own conditions "
+             "drawn from the listener constructors, 0-3 L7 and 0-2 L4 routes), 0-3 ignored Gateways; the returned setters are run on empty Gateway objects and the "
+             "status read back. The (type, status, reason) lists must equal the model's (C07/Prep.v) in order, and satisfy the oracle on their own: after a failed "
+             "reload every Route parent is Accepted=False/GatewayNotProgrammed and a valid Gateway and each listener Programmed=False/Invalid; a failed attachment's "
+             "condition is the only one of its type; no type twice per entry; Gateway Accepted reflects the number of valid listeners; attachedRoutes = L7 + L4 "
+             "routes; ignored Gateways carry GatewayConflict; per-type precedence reload > failed attachment > last own condition > default; the constructors "
+             "return the (type, status, reason) the model assumes. Non-trivial there = at least 2 parentRefs and 2 Route conditions, or at least 2 listeners",
         trusted_base=COMMON_TB + [
             "k8s/Spec.v: declarative attachment/validity relation used as the truth about what is programmed (the same relation the C02 check validates "
             "against the generated NGINX configuration)",
             "controller-runtime fake client as API server; generation is set by the generator (timestamp + 1)",
+            "second part: C07/Prep.v models prepare_requests.go and DeduplicateConditions on (type, status, reason) only - messages, observedGeneration, "
+            "lastTransitionTime, supportedKinds, addresses and the parentRef/controllerName fields of the entries are not modelled there (C08 covers the entries "
+            "and setters); the model is tied to the real functions by comparison on the generated inputs, not by translation of the Go source; the inputs are "
+            "built by the harness as graph.ParentRef / graph.Gateway / graph.Listener values, not by BuildGraph; the constructor pools and the reflective "
+            "constructor call are shared with the C08 harness (c08Ctors, c08Pools, c08Call)",
         ],
-        assumptions=["policy ancestor statuses are covered by C08/C04, not here"],
+        assumptions=["policy ancestor statuses are covered by C08/C04, not here",
+                     "second part: for an INVALID Gateway prepareGatewayRequest reports the Gateway's own conditions whatever the reload result; that those contain "
+                     "Programmed=False is a fact about the graph builder (first part), not about the status assembly",
+                     "second part: listeners of one Gateway do not share the backing array of their Conditions slices (prepareGatewayRequest appends to l.Conditions)"],
         timeout={"quick": 900, "thorough": 7200},
     )
